@@ -397,7 +397,12 @@ fn gen_submessage(r: &mut R, out: &mut Vec<Submessage>) {
       let size = dd.payload_size();
       let nfrags = (size + frag_size as usize - 1) / frag_size as usize;
       let f = 1 + r.below(nfrags as u64) as u32;
-      let cc = CacheChange::new(wguid, SequenceNumber::new(sn_interesting(r)), WriteOptionsBuilder::new().build(), dd);
+      // a fragmented sample written with a related sample identity carries inline QoS in every DATAFRAG
+      let mut wo = WriteOptionsBuilder::new();
+      if r.chance(1, 3) {
+        wo = wo.related_sample_identity(crate::structure::rpc::SampleIdentity { writer_guid: wguid, sequence_number: SequenceNumber::new(sn_interesting(r)) });
+      }
+      let cc = CacheChange::new(wguid, SequenceNumber::new(sn_interesting(r)), wo.build(), dd);
       let b = MessageBuilder::new().data_frag_msg(&cc, eid(r), wguid, FragmentNumber::new(if r.chance(1, 3) { nfrags as u32 } else { f }), frag_size, size as u32, e, None);
       out.extend(b.add_header_and_build(wguid.prefix).submessages);
     }
@@ -633,4 +638,15 @@ pub fn fn_set_case(seed: u64) -> SetCase {
   let back_le = FragmentNumberSet::read_from_buffer_with_ctx(Endianness::LittleEndian, &le).ok();
   let after = back_le.map(|a| a.iter().map(|f| u32::from(f) as i64).collect());
   SetCase { base: u32::from(s.base()) as i64, requested: set.iter().map(|x| u32::from(*x) as i64).collect(), reported, reported_rev, after_roundtrip: after, bytes_le: le, bytes_be: be, is_empty_says: s.is_empty() }
+}
+
+/// A number set as another implementation may send it (the bits of the last bitmap word beyond numBits are
+/// undefined): parse the little-endian bytes, report (forward iteration, backward iteration, is_empty).
+pub fn sn_set_from_bytes(bytes_le: &[u8]) -> Option<(Vec<i64>, Vec<i64>, bool)> {
+  let s = SequenceNumberSet::read_from_buffer_with_ctx(Endianness::LittleEndian, bytes_le).ok()?;
+  Some((s.iter().map(i64::from).collect(), s.iter().rev().map(i64::from).collect(), s.is_empty()))
+}
+pub fn fn_set_from_bytes(bytes_le: &[u8]) -> Option<(Vec<i64>, Vec<i64>, bool)> {
+  let s = FragmentNumberSet::read_from_buffer_with_ctx(Endianness::LittleEndian, bytes_le).ok()?;
+  Some((s.iter().map(|f| u32::from(f) as i64).collect(), s.iter().rev().map(|f| u32::from(f) as i64).collect(), s.is_empty()))
 }
